@@ -43,6 +43,7 @@ func (fc *FnCtx) callWith(instr ssa.Instruction, c *ssa.CallCommon, args []Val, 
 		fc.termArgs(all)
 		fc.note("dynamic call " + key + " without contract: full havoc")
 		fc.havocAll(st)
+		fc.growAlloc(st)
 		return fc.freshResults(sig.Results(), st, "dyn")
 	}
 	switch callee := c.Value.(type) {
@@ -80,6 +81,7 @@ func (fc *FnCtx) callWith(instr ssa.Instruction, c *ssa.CallCommon, args []Val, 
 	fc.termArgs(args)
 	fc.note("call of function value without contract in " + fc.fnName() + ": full havoc")
 	fc.havocAll(st)
+	fc.growAlloc(st)
 	return fc.freshResults(sig.Results(), st, "dyn")
 }
 
@@ -100,6 +102,9 @@ func (fc *FnCtx) callClosure(instr ssa.Instruction, cl *Closure, args []Val, st 
 	fc.termArgs(args)
 	eff := fc.eng.effects(cl.Fn)
 	fc.havocEffects(st, eff, cl.Fn.String())
+	if fc.mayAllocate(eff, cl.Fn.Signature) {
+		fc.growAlloc(st)
+	}
 	return fc.freshResults(cl.Fn.Signature.Results(), st, "clo")
 }
 
@@ -138,6 +143,9 @@ func (fc *FnCtx) callStatic(instr ssa.Instruction, fn *ssa.Function, args []Val,
 	fc.termArgs(args)
 	eff := fc.eng.effects(fn)
 	fc.havocEffects(st, eff, name)
+	if fc.mayAllocate(eff, sig) {
+		fc.growAlloc(st)
+	}
 	return fc.freshResults(sig.Results(), st, fn.Name())
 }
 
@@ -225,6 +233,36 @@ func (fc *FnCtx) havocEffects(st *State, eff *effSet, callee string) {
 	}
 }
 
+// mayAllocate: the call can hand the caller objects that did not exist before it
+func (fc *FnCtx) mayAllocate(eff *effSet, sig *types.Signature) bool {
+	if eff != nil && (eff.all || len(eff.fresh) > 0) {
+		return true
+	}
+	for i := 0; i < sig.Results().Len(); i++ {
+		switch fc.so.Sort(sig.Results().At(i).Type()) {
+		case "Int", "Bool", "Str", "Real":
+		default:
+			return true
+		}
+	}
+	return false
+}
+
+// growAlloc: a callee may have allocated objects: the set of allocated objects after the call is a
+// superset of the one before (results are then well-formed with respect to the new set)
+func (fc *FnCtx) growAlloc(st *State) {
+	if fc.pureMode {
+		return
+	}
+	tb := fc.tb
+	srt := ArraySort("Ref", "Bool")
+	prev := fc.heapGet(st, "alloc", srt)
+	nv := tb.Fresh("al!", srt)
+	r := tb.BoundVar("r", "Ref")
+	fc.assume(st, tb.Quant(true, []*Term{r}, tb.Implies(tb.Select(prev, r), tb.Select(nv, r)), tb.Select(nv, r)))
+	st.heap["alloc"] = nv
+}
+
 // callByContract: assert requires, havoc frame, assume ensures.
 func (fc *FnCtx) callByContract(instr ssa.Instruction, name string, con *Contract, fn *ssa.Function, sig *types.Signature, args []Val, st *State, recvType types.Type) Val {
 	if fc.pureMode {
@@ -257,6 +295,7 @@ func (fc *FnCtx) callByContract(instr ssa.Instruction, name string, con *Contrac
 	if con.HasPreserves {
 		fc.note("frame of " + name + " assumed: it may write anything except " + strings.Join(con.Preserves, " ") + " (T6)")
 		fc.havocAllExcept(st, fc.eng.preservedKeys(con))
+		fc.growAlloc(st)
 	} else if con.HasAssigns {
 		if !con.Trusted && fn != nil {
 			fc.note("frame of " + name + " taken from its assigns clause (assumed, not checked against its body)")
@@ -272,12 +311,19 @@ func (fc *FnCtx) callByContract(instr ssa.Instruction, name string, con *Contrac
 				}
 			}
 		}
+		if !con.Pure && fc.mayAllocate(nil, sig) {
+			fc.growAlloc(st)
+		}
 	} else if fn != nil {
 		fc.havocEffects(st, fc.eng.effects(fn), name)
+		if fc.mayAllocate(fc.eng.effects(fn), sig) {
+			fc.growAlloc(st)
+		}
 	} else if con.Pure {
 		// opaque interface method / func value: no effects (T5)
 	} else {
 		fc.havocAll(st)
+		fc.growAlloc(st)
 	}
 	var res Val
 	if con.Pure && fn != nil {
